@@ -76,6 +76,9 @@ def gen_c16(rng, tier):
             ops.append(["wait", int(late)])
             if rng.random() < 0.03:
                 ops.append(["stale_wait"])
+        if rng.random() < 0.12:
+            ops.append(["body", int(rng.randint(0, max(1, p_us - 1)) // (GRID_US if dyadic else 1) * (GRID_US if dyadic else 1))])
+            ops.append(["wait", 0, "free_during"])
         ops.append(["free", rng.choice(["free", "exit", "free_twice"])])
         for _ in range(rng.choice([0, 1, 3])):
             ops.append(["body", rng.randint(0, 2 * p_us)])
@@ -292,6 +295,14 @@ def _exec_c16(plan, world, R):
         alarm = alarms.get(handle, hs.getNextNotifierTimeout())
         seam["alarm"] = alarm
         seam["t_in"] = world.now_us()
+        if seam.get("free_during") is not None:
+            # somebody releases the delay while its wait() is blocked (the way to end a paced loop from outside): the
+            # blocked call wakes up at that moment
+            fd, seam["free_during"] = seam["free_during"], None
+            if world.now_us() < alarm:
+                world.advance((alarm - world.now_us()) // 2)
+            fd.free()
+            return real_wait(handle)
         if world.now_us() < alarm:
             world.goto(alarm)
             if seam["late"]:
@@ -403,13 +414,29 @@ def _exec_c16(plan, world, R):
                     continue
                 calls0, now0 = seam["calls"], world.now_us()
                 seam["late"] = op[1]
+                freed_inside = len(op) > 2 and op[2] == "free_during" and not c.freed
+                if freed_inside:
+                    seam["free_during"] = c.nd
+                    n_live = hs.getNumNotifiers()
                 try:
                     c.nd.wait()
                 except Violation:
                     raise
                 except Exception as e:
-                    R.fail("exception", idx, op, f"{type(e).__name__}: {e}")
+                    R.fail("exception", idx, op, f"{type(e).__name__}: {e}" + (" (free() arrived while wait() was blocked)" if freed_inside else ""))
+                seam["free_during"] = None
                 t_ret = world.now_us()
+                if freed_inside:
+                    want = now0 + max(0, (c.t0 + (c.k + 1) * c.p - now0)) // 2
+                    if t_ret != want:
+                        R.fail("free_during_wait", idx, op, f"free() arrived at {want} while wait() was blocked; wait() returned at {t_ret}")
+                    if hs.getNumNotifiers() != n_live - 1 or c.handle in handles["live"]:
+                        R.fail("notifier_not_released", idx, op, "free() during a blocked wait() did not release the HAL notifier")
+                    c.freed = True
+                    R.fault("free_while_wait_blocked")
+                    R.shape.append(("wait_freed_inside",))
+                    R.visit(("freed",))
+                    continue
                 R.log.append([idx, now0, seam["alarm"], t_ret, c.freed])
                 R.tr(f"[{idx}] wait: body finished at {now0}, alarm {seam['alarm'] if not c.freed else None}, returned at {t_ret}, freed={c.freed}")
                 if c.freed:
